@@ -1,27 +1,554 @@
-//! C03 — stub, not built yet.
+//! C03 Public identifiers resolve to exactly the live item that carries them.
+//! History machine (C01 ops) + tail of duplicate-id insertions / strip-ids / reindex; after every step a
+//! battery of lookup strings is resolved through every lookup entry point and compared with the model.
 
 use crate::engine::*;
+use crate::hist::*;
+use crate::model::*;
 use proptest::prelude::*;
+use serde::{Deserialize, Serialize};
+use stam::*;
+use std::collections::BTreeSet;
 
 pub struct C03;
 
+#[derive(Clone, Debug, Serialize, Deserialize, PartialEq)]
+pub enum TailOp {
+    /// add a resource with the id of the k-th live resource (same or different text)
+    DupResource { pick: u16, same_text: bool },
+    /// add a dataset with the id of the k-th live dataset
+    DupDataset { pick: u16 },
+    /// annotate with the id of the k-th live annotation that has an id (side-effect free request)
+    DupAnnotation { pick: u16 },
+    /// insert data with an id that already exists in the set
+    DupData { set: u16, pick: u16 },
+    StripAnnotationIds,
+    StripDataIds,
+    /// compaction; terminal
+    Reindex,
+}
+
+#[derive(Clone, Debug, Serialize, Deserialize)]
+pub struct Case {
+    pub hist: History,
+    pub tail: Vec<TailOp>,
+    /// extra lookup strings
+    pub strings: Vec<String>,
+}
+
+fn tail_strategy() -> BoxedStrategy<Vec<TailOp>> {
+    let op = prop_oneof![
+        3 => (any::<u16>(), any::<bool>()).prop_map(|(pick, same_text)| TailOp::DupResource { pick, same_text }),
+        2 => any::<u16>().prop_map(|pick| TailOp::DupDataset { pick }),
+        3 => any::<u16>().prop_map(|pick| TailOp::DupAnnotation { pick }),
+        2 => (any::<u16>(), any::<u16>()).prop_map(|(set, pick)| TailOp::DupData { set, pick }),
+        1 => Just(TailOp::StripAnnotationIds),
+        1 => Just(TailOp::StripDataIds),
+        2 => Just(TailOp::Reindex),
+    ];
+    proptest::collection::vec(op, 0..=5).boxed()
+}
+
+fn strings_strategy() -> BoxedStrategy<Vec<String>> {
+    let letters = proptest::sample::select(vec!["A", "R", "S", "K", "D", "I", "T", "X", "Z", "É", "a", "r", "", "😀"]);
+    let tails = proptest::sample::select(vec![
+        "0", "1", "2", "3", "5", "9", "", "x", "1x", "-1", "99999999999999999999999", " 1", "1 ", "É", "٣",
+    ]);
+    let temp = (letters, tails).prop_map(|(l, t)| format!("!{}{}", l, t));
+    let arb = "\\PC{0,6}";
+    proptest::collection::vec(prop_oneof![3 => temp, 1 => arb.prop_map(|s: String| s), 1 => Just("!".to_string()), 1 => Just("".to_string())], 0..=12)
+        .boxed()
+}
+
+/// canonical temporary id "!<L><digits>" (no sign, no leading zeros except "0") → Some(Some(n));
+/// things the documentation does not clearly make a temporary id (sign, leading zeros) → Some(None) = don't care;
+/// everything else → None (not a temporary id)
+fn parse_temp(s: &str, letter: char) -> Option<Option<usize>> {
+    let mut it = s.chars();
+    if it.next() != Some('!') {
+        return None;
+    }
+    if it.next() != Some(letter) {
+        return None;
+    }
+    let rest: &str = &s[1 + letter.len_utf8()..];
+    if rest.is_empty() {
+        return None;
+    }
+    if rest.chars().all(|c| c.is_ascii_digit()) {
+        if rest.len() > 1 && rest.starts_with('0') {
+            return Some(None);
+        }
+        return match rest.parse::<usize>() {
+            Ok(n) => Some(Some(n)),
+            Err(_) => None, // overflow: cannot be a handle
+        };
+    }
+    if rest.starts_with('+') && rest[1..].chars().all(|c| c.is_ascii_digit()) && rest.len() > 1 {
+        return Some(None);
+    }
+    None
+}
+
+struct Expect {
+    /// Some(handle) must resolve to that handle; None must not resolve; outer None = don't care
+    v: Option<Option<usize>>,
+    class: &'static str,
+}
+
+fn expect_for(s: &str, by_id: Option<usize>, letter: char, live: &dyn Fn(usize) -> bool) -> Expect {
+    if let Some(h) = by_id {
+        return Expect { v: Some(Some(h)), class: "public" };
+    }
+    match parse_temp(s, letter) {
+        Some(Some(n)) => {
+            if live(n) {
+                Expect { v: Some(Some(n)), class: "tempid.live" }
+            } else {
+                Expect { v: Some(None), class: "tempid.dead" }
+            }
+        }
+        Some(None) => Expect { v: None, class: "tempid.odd" },
+        None => {
+            let class = if s.starts_with('!') {
+                "tempid.malformed-or-other-kind"
+            } else if s.is_ascii() {
+                "unknown"
+            } else {
+                "unknown.nonascii"
+            };
+            Expect { v: Some(None), class }
+        }
+    }
+}
+
+struct Battery<'a> {
+    store: &'a AnnotationStore,
+    model: &'a Model,
+    /// model handle -> store handle (identity until reindex)
+    map_ann: &'a dyn Fn(usize) -> usize,
+    map_res: &'a dyn Fn(usize) -> usize,
+    map_set: &'a dyn Fn(usize) -> usize,
+    after: &'static str,
+}
+
+impl<'a> Battery<'a> {
+    fn run(&self, strings: &BTreeSet<String>, out: &mut Outcome) {
+        let m = self.model;
+        for s in strings {
+            // ---- annotations
+            let by_id = m.ann_by_id(s).map(|h| (self.map_ann)(h));
+            let live = |n: usize| m.live_anns().iter().any(|h| (self.map_ann)(*h) == n);
+            let e = expect_for(s, by_id, 'A', &live);
+            let got = catch(|| self.store.annotation(s.as_str()).map(|a| (a.handle().as_usize(), a.id().map(|x| x.to_string()))));
+            self.cmp(out, "annotation", s, &e, got.map(|g| g.map(|(h, id)| (h, id))), by_id.is_some());
+            let got = catch(|| self.store.resolve_annotation_id(s.as_str()).ok().map(|h| (h.as_usize(), None)));
+            self.cmp(out, "resolve_annotation_id", s, &e, got, false);
+            // ---- resources
+            let by_id = m.res_by_id(s).map(|h| (self.map_res)(h));
+            let live = |n: usize| m.live_resources().iter().any(|h| (self.map_res)(*h) == n);
+            let e = expect_for(s, by_id, 'R', &live);
+            let got = catch(|| self.store.resource(s.as_str()).map(|a| (a.handle().as_usize(), a.id().map(|x| x.to_string()))));
+            self.cmp(out, "resource", s, &e, got, by_id.is_some());
+            let got = catch(|| self.store.resolve_resource_id(s.as_str()).ok().map(|h| (h.as_usize(), None)));
+            self.cmp(out, "resolve_resource_id", s, &e, got, false);
+            if let (Some(h), Ok(Some(r))) = (by_id, catch(|| self.store.resource(s.as_str()).map(|r| r.text().to_string()))) {
+                let mh = m.res_by_id(s).unwrap();
+                let t: String = m.res(mh).text.iter().collect();
+                out.checks += 1;
+                if r != t {
+                    out.fail("resolve.resource", format!("wrong-text|{}", self.after), format!("resource id {:?} (handle {}) has text {:?}, expected {:?}", s, h, r, t));
+                }
+            }
+            // ---- datasets
+            let by_id = m.set_by_id(s).map(|h| (self.map_set)(h));
+            let live = |n: usize| m.live_sets().iter().any(|h| (self.map_set)(*h) == n);
+            let e = expect_for(s, by_id, 'S', &live);
+            let got = catch(|| self.store.dataset(s.as_str()).map(|a| (a.handle().as_usize(), a.id().map(|x| x.to_string()))));
+            self.cmp(out, "dataset", s, &e, got, by_id.is_some());
+            let got = catch(|| self.store.resolve_dataset_id(s.as_str()).ok().map(|h| (h.as_usize(), None)));
+            self.cmp(out, "resolve_dataset_id", s, &e, got, false);
+            // ---- substores: none exist
+            let got = catch(|| self.store.substore(s.as_str()).map(|a| (a.handle().as_usize(), None)));
+            let e = Expect { v: if parse_temp(s, 'I') == Some(None) { None } else { Some(None) }, class: "substore" };
+            self.cmp(out, "substore", s, &e, got, false);
+            // ---- keys and data of every live set
+            for sh in m.live_sets() {
+                let ms = m.set(sh);
+                let store_sh = AnnotationDataSetHandle::new((self.map_set)(sh));
+                let by_id = ms.key_by_id(s);
+                let live = |n: usize| ms.live_keys().contains(&n);
+                let e = expect_for(s, by_id, 'K', &live);
+                let got = catch(|| self.store.key(store_sh, s.as_str()).map(|a| (a.handle().as_usize(), a.id().map(|x| x.to_string()))));
+                self.cmp(out, "key", s, &e, got, by_id.is_some());
+                let by_id = ms.data_by_id(s);
+                let live = |n: usize| ms.live_data().contains(&n);
+                let e = expect_for(s, by_id, 'D', &live);
+                let got = catch(|| self.store.annotationdata(store_sh, s.as_str()).map(|a| (a.handle().as_usize(), a.id().map(|x| x.to_string()))));
+                self.cmp(out, "annotationdata", s, &e, got, by_id.is_some());
+            }
+        }
+    }
+
+    fn cmp(
+        &self,
+        out: &mut Outcome,
+        kind: &str,
+        s: &str,
+        e: &Expect,
+        got: Result<Option<(usize, Option<String>)>, PanicInfo>,
+        check_id: bool,
+    ) {
+        out.checks += 1;
+        let facet = format!("resolve.{}", kind);
+        match got {
+            Err(p) => out.fail(
+                "panic",
+                format!("{}|{}", kind, p.signature()),
+                format!("{}({:?}) panicked at {}:{}: {}", kind, s, p.file, p.line, p.msg),
+            ),
+            Ok(g) => match e.v {
+                None => out.dontcare += 1,
+                Some(exp) => {
+                    let gh = g.as_ref().map(|x| x.0);
+                    if gh != exp {
+                        let dir = match (exp, gh) {
+                            (Some(_), None) => "not-found",
+                            (None, Some(_)) => "resolves",
+                            _ => "wrong-item",
+                        };
+                        out.fail(
+                            &facet,
+                            format!("{}|{}|{}", e.class, dir, self.after),
+                            format!("{}({:?}) gave {:?}, expected {:?} ({})", kind, s, gh, exp, e.class),
+                        );
+                    } else if check_id {
+                        if let Some((_, Some(id))) = &g {
+                            if id != s {
+                                out.fail(&facet, format!("{}|item-has-other-id|{}", e.class, self.after), format!("{}({:?}) returned an item whose id is {:?}", kind, s, id));
+                            }
+                        } else if let Some((_, None)) = &g {
+                            out.fail(&facet, format!("{}|item-has-no-id|{}", e.class, self.after), format!("{}({:?}) returned an item without id", kind, s));
+                        }
+                    }
+                }
+            },
+        }
+    }
+}
+
+fn collect_ids(m: &Model, all: &mut BTreeSet<String>) {
+    for r in m.resources.iter().flatten() {
+        all.insert(r.id.clone());
+    }
+    for s in m.sets.iter().flatten() {
+        all.insert(s.id.clone());
+        for k in s.keys.iter().flatten() {
+            all.insert(k.clone());
+        }
+        for d in s.data.iter().flatten() {
+            if let Some(id) = &d.id {
+                all.insert(id.clone());
+            }
+        }
+    }
+    for a in m.anns.iter().flatten() {
+        if let Some(id) = &a.id {
+            all.insert(id.clone());
+        }
+    }
+}
+
 impl Property for C03 {
-    type Case = u8;
+    type Case = Case;
     fn id(&self) -> &'static str {
         "C03"
     }
     fn rule(&self) -> String {
-        "not built yet".into()
+        "case = C01 history + tail of duplicate-id insertions (resource, dataset, annotation, data), strip_annotation_ids, strip_data_ids and a terminal reindex + extra lookup strings (temporary-id syntax with any letter / digit string / junk, arbitrary Unicode); after every step every id ever used (live and removed, of every kind) and every extra string is resolved through annotation/resource/dataset/key/annotationdata/substore and resolve_*_id and compared with the model: the unique live item carrying the id, a live item of the right kind for a canonical temporary id, nothing otherwise; never a panic. Non-trivial = the battery ran after a removal, a strip, a reindex or a duplicate insertion; distinct = distinct case JSON.".into()
     }
-    fn cases(&self, _tier: Tier) -> u64 {
-        0
+    fn assumptions(&self) -> Vec<String> {
+        vec![
+            "temporary ids with a sign or leading zeros ('!A+5', '!A007') are don't-care (the documented form is '!A0')".into(),
+            "reindex is terminal: afterwards only ids, handles and resource texts are inspected (targets inside annotations are outside C03)".into(),
+            "the duplicate annotate request is side-effect free by construction (existing resource selector, no data) so that C14-type leaks cannot disturb the oracle".into(),
+        ]
     }
-    fn strategy(&self, _tier: Tier) -> BoxedStrategy<u8> {
-        any::<u8>().boxed()
+    fn cases(&self, tier: Tier) -> u64 {
+        tier.pick(100_000, 3_000_000)
     }
-    fn run(&self, _case: &u8) -> Outcome {
-        let mut o = Outcome::new();
-        o.skip("not built");
-        o
+    fn strategy(&self, tier: Tier) -> BoxedStrategy<Case> {
+        let cfg = HistCfg {
+            max_ops: tier.pick(14, 30),
+            text_max: 8,
+            removal_weight: 6,
+            protect_weight: 0,
+            complex_weight: 1,
+            ..HistCfg::default()
+        };
+        (history_strategy(cfg), tail_strategy(), strings_strategy())
+            .prop_map(|(hist, tail, strings)| Case { hist, tail, strings })
+            .boxed()
+    }
+
+    fn run(&self, case: &Case) -> Outcome {
+        let mut out = Outcome::new();
+        let mut m = Machine::new(case.hist.hostile);
+        let mut all: BTreeSet<String> = case.strings.iter().cloned().collect();
+        // a fixed set of probes that must never resolve or panic
+        for s in ["!", "!A", "!É1", "!😀0", "!a0", "!A-1", "!R0", "!S0", "!K0", "!D0", "!I0", "!A0", "!A1", "!A2", "!R1", "!S1", "!K1", "!D1", "!D2", "!T0", "!Z0", "", " ", "é"] {
+            all.insert(s.to_string());
+        }
+        let ident = |h: usize| h;
+        let mut any_removal = false;
+        for op in &case.hist.ops {
+            let step = m.apply(op);
+            if step.skipped.is_some() {
+                continue;
+            }
+            if step.panic.is_some() || step.result.is_err() || step.mismatch.is_some() {
+                // other properties' business (C01/C02); the model no longer tracks the store
+                out.label("stopped_at_foreign_divergence");
+                return out;
+            }
+            // the model must still agree with the store on what exists, otherwise expectations are meaningless
+            let live_ok = catch(|| {
+                let a: Vec<usize> = m.store.annotations().map(|a| a.handle().as_usize()).collect();
+                let r: Vec<usize> = m.store.resources().map(|a| a.handle().as_usize()).collect();
+                let s: Vec<usize> = m.store.datasets().map(|a| a.handle().as_usize()).collect();
+                a == m.model.live_anns() && r == m.model.live_resources() && s == m.model.live_sets()
+            });
+            if live_ok.ok() != Some(true) {
+                out.label("stopped_at_foreign_divergence");
+                return out;
+            }
+            if op.is_removal() {
+                any_removal = true;
+                out.label("after_removal");
+            }
+            collect_ids(&m.model, &mut all);
+            let b = Battery {
+                store: &m.store,
+                model: &m.model,
+                map_ann: &ident,
+                map_res: &ident,
+                map_set: &ident,
+                after: if any_removal { "after-removal" } else { "fresh" },
+            };
+            b.run(&all, &mut out);
+            if !out.failures.is_empty() {
+                return out;
+            }
+        }
+        // ---- tail
+        let Machine { mut store, mut model, .. } = m;
+        for t in &case.tail {
+            let mut after: &'static str = "after-dup";
+            match t {
+                TailOp::DupResource { pick: p, same_text } => {
+                    let live = model.live_resources();
+                    if live.is_empty() {
+                        continue;
+                    }
+                    let r = live[pick(*p, live.len())];
+                    let id = model.res(r).id.clone();
+                    let mut text: String = model.res(r).text.iter().collect();
+                    if !*same_text {
+                        text.push('#');
+                    }
+                    let before = model.live_resources().len();
+                    let res = catch(|| store.add_resource(TextResourceBuilder::new().with_id(id.clone()).with_text(text.clone())));
+                    out.label("dup_resource");
+                    match res {
+                        Err(p) => out.fail("panic", format!("add_resource-dup|{}", p.signature()), format!("adding a resource with an existing id panicked: {}", p.msg)),
+                        Ok(Ok(h)) => {
+                            if h.as_usize() != r {
+                                out.fail("unique", "resource|second-item", format!("adding a resource with existing id {:?} returned new handle {} (existing is {})", id, h.as_usize(), r));
+                            }
+                            if !*same_text {
+                                out.fail("unique", "resource|different-accepted", format!("a different resource with existing id {:?} was accepted", id));
+                            }
+                        }
+                        Ok(Err(_)) => {}
+                    }
+                    let n = catch(|| store.resources().count()).unwrap_or(usize::MAX);
+                    if n != before {
+                        out.fail("unique", "resource|count", format!("number of resources changed from {} to {} by a duplicate insertion", before, n));
+                    }
+                }
+                TailOp::DupDataset { pick: p } => {
+                    let live = model.live_sets();
+                    if live.is_empty() {
+                        continue;
+                    }
+                    let s = live[pick(*p, live.len())];
+                    let id = model.set(s).id.clone();
+                    let before = live.len();
+                    let res = catch(|| store.add_dataset(AnnotationDataSetBuilder::new().with_id(id.clone())));
+                    out.label("dup_dataset");
+                    match res {
+                        Err(p) => out.fail("panic", format!("add_dataset-dup|{}", p.signature()), format!("adding a dataset with an existing id panicked: {}", p.msg)),
+                        Ok(Ok(h)) => {
+                            if h.as_usize() != s {
+                                out.fail("unique", "dataset|second-item", format!("adding a dataset with existing id {:?} returned new handle {} (existing is {})", id, h.as_usize(), s));
+                            }
+                        }
+                        Ok(Err(_)) => {}
+                    }
+                    let n = catch(|| store.datasets().count()).unwrap_or(usize::MAX);
+                    if n != before {
+                        out.fail("unique", "dataset|count", format!("number of datasets changed from {} to {} by a duplicate insertion", before, n));
+                    }
+                }
+                TailOp::DupAnnotation { pick: p } => {
+                    let with_id: Vec<usize> = model.live_anns().into_iter().filter(|a| model.ann(*a).id.is_some()).collect();
+                    let lr = model.live_resources();
+                    if with_id.is_empty() || lr.is_empty() {
+                        continue;
+                    }
+                    let a = with_id[pick(*p, with_id.len())];
+                    let id = model.ann(a).id.clone().unwrap();
+                    let before = model.live_anns().len();
+                    let rid = model.res(lr[0]).id.clone();
+                    let res = catch(|| {
+                        store.annotate(
+                            AnnotationBuilder::new()
+                                .with_id(id.clone())
+                                .with_target(SelectorBuilder::ResourceSelector(BuildItem::Id(rid.clone()))),
+                        )
+                    });
+                    out.label("dup_annotation");
+                    match res {
+                        Err(p) => out.fail("panic", format!("annotate-dup|{}", p.signature()), format!("annotate with an existing id panicked: {}", p.msg)),
+                        Ok(Ok(h)) => {
+                            if h.as_usize() != a {
+                                out.fail("unique", "annotation|second-item", format!("annotate with existing id {:?} returned new handle {} (existing is {})", id, h.as_usize(), a));
+                            }
+                        }
+                        Ok(Err(_)) => {}
+                    }
+                    let n = catch(|| store.annotations().count()).unwrap_or(usize::MAX);
+                    if n != before {
+                        out.fail("unique", "annotation|count", format!("number of annotations changed from {} to {} by a duplicate insertion", before, n));
+                    }
+                }
+                TailOp::DupData { set, pick: p } => {
+                    let live = model.live_sets();
+                    if live.is_empty() {
+                        continue;
+                    }
+                    let s = live[pick(*set, live.len())];
+                    let with_id: Vec<usize> = model
+                        .set(s)
+                        .live_data()
+                        .into_iter()
+                        .filter(|d| model.set(s).data[*d].as_ref().unwrap().id.is_some())
+                        .collect();
+                    if with_id.is_empty() {
+                        continue;
+                    }
+                    let d = with_id[pick(*p, with_id.len())];
+                    let md = model.set(s).data[d].clone().unwrap();
+                    let key = model.set(s).keys[md.key].clone().unwrap();
+                    let before = model.set(s).live_data().len();
+                    let sh = AnnotationDataSetHandle::new(s);
+                    let res = catch(|| {
+                        store.insert_data(
+                            AnnotationDataBuilder::new()
+                                .with_dataset(BuildItem::Handle(sh))
+                                .with_id(BuildItem::Id(md.id.clone().unwrap()))
+                                .with_key(BuildItem::Id(key.clone()))
+                                .with_value(md.value.to_stam()),
+                        )
+                    });
+                    out.label("dup_data");
+                    match res {
+                        Err(p) => out.fail("panic", format!("insert_data-dup|{}", p.signature()), format!("insert_data with an existing id panicked: {}", p.msg)),
+                        Ok(Ok((_, h))) => {
+                            if h.as_usize() != d {
+                                out.fail("unique", "data|second-item", format!("insert_data with existing id {:?} returned handle {} (existing is {})", md.id, h.as_usize(), d));
+                            }
+                        }
+                        Ok(Err(_)) => {}
+                    }
+                    let n = catch(|| store.dataset(sh).map(|x| x.data().count()).unwrap_or(usize::MAX)).unwrap_or(usize::MAX);
+                    if n != before {
+                        out.fail("unique", "data|count", format!("number of data items changed from {} to {} by a duplicate insertion", before, n));
+                    }
+                }
+                TailOp::StripAnnotationIds => {
+                    if let Err(p) = catch(|| store.strip_annotation_ids()) {
+                        out.fail("panic", format!("strip_annotation_ids|{}", p.signature()), p.msg.clone());
+                    }
+                    for a in model.anns.iter_mut().flatten() {
+                        a.id = None;
+                    }
+                    out.label("strip_annotation_ids");
+                    after = "after-strip";
+                }
+                TailOp::StripDataIds => {
+                    if let Err(p) = catch(|| store.strip_data_ids()) {
+                        out.fail("panic", format!("strip_data_ids|{}", p.signature()), p.msg.clone());
+                    }
+                    for s in model.sets.iter_mut().flatten() {
+                        for d in s.data.iter_mut().flatten() {
+                            d.id = None;
+                        }
+                    }
+                    out.label("strip_data_ids");
+                    after = "after-strip";
+                }
+                TailOp::Reindex => {
+                    out.label("reindex");
+                    if model.anns.iter().any(|a| a.is_none()) || model.resources.iter().any(|a| a.is_none()) || model.sets.iter().any(|a| a.is_none()) {
+                        out.label("reindex_with_gaps");
+                    }
+                    let res = catch(move || store.reindex());
+                    match res {
+                        Err(p) => {
+                            out.fail("panic", format!("reindex|{}", p.signature()), format!("reindex panicked at {}:{}: {}", p.file, p.line, p.msg));
+                            break;
+                        }
+                        Ok(s2) => {
+                            let la = model.live_anns();
+                            let lr = model.live_resources();
+                            let ls = model.live_sets();
+                            let map_ann = |h: usize| la.iter().position(|x| *x == h).unwrap_or(usize::MAX);
+                            let map_res = |h: usize| lr.iter().position(|x| *x == h).unwrap_or(usize::MAX);
+                            let map_set = |h: usize| ls.iter().position(|x| *x == h).unwrap_or(usize::MAX);
+                            let b = Battery {
+                                store: &s2,
+                                model: &model,
+                                map_ann: &map_ann,
+                                map_res: &map_res,
+                                map_set: &map_set,
+                                after: "after-reindex",
+                            };
+                            b.run(&all, &mut out);
+                            out.nontrivial = true;
+                            return out;
+                        }
+                    }
+                }
+            }
+            if !out.failures.is_empty() {
+                break;
+            }
+            collect_ids(&model, &mut all);
+            let b = Battery {
+                store: &store,
+                model: &model,
+                map_ann: &ident,
+                map_res: &ident,
+                map_set: &ident,
+                after,
+            };
+            b.run(&all, &mut out);
+            if !out.failures.is_empty() {
+                break;
+            }
+        }
+        out.nontrivial = any_removal || !case.tail.is_empty();
+        out
     }
 }
